@@ -139,7 +139,92 @@ pub fn run_resp(lines: &[String]) {
                     }
                 )
             }
+            Some("trk") => println!("{}", run_trk(line)),
             _ => panic!("bad case"),
         }
     }
+}
+
+/// C19 fault sequences: the real Session's tracker-command handling, with a scripted tracker task
+/// (n failed announces one second apart, then a good reply) under the paused clock.
+///   trk <n fails> <peers in the reply k,k,..|-> <peers already interested count>
+/// output: per pumped command OK | BLOCKED, then " | " contacted peers, candidates left, spawns
+pub fn run_trk(line: &str) -> String {
+    use rdest::verif::TrackerCmd;
+    use rdest::{Session, TrackerResp};
+    let t: Vec<&str> = line.split_whitespace().collect();
+    let n: usize = t[1].parse().unwrap();
+    let peers: Vec<usize> = if t[2] == "-" { vec![] } else { t[2].split(',').map(|x| x.parse().unwrap()).collect() };
+    let interested: usize = t[3].parse().unwrap();
+    let rt = tokio::runtime::Builder::new_current_thread().enable_all().start_paused(true).build().unwrap();
+    let r = guarded(|| {
+        rt.block_on(async {
+            let mut s = Session::new(crate::mgr::torrent(3, 4, 10), *b"XXXXXXXXXXXXXXXXXXXX");
+            s.verif_record_spawns();
+            for k in 0..interested {
+                let a = format!("10.0.1.{}:6881", k + 1);
+                s.verif_add_peer(&a, None);
+                s.verif_peer_mut(&a).unwrap().am_interested = true;
+            }
+            let mut body = b"d8:intervali1800e5:peersl".to_vec();
+            for k in &peers {
+                let ip = format!("10.0.0.{}", k);
+                body.extend_from_slice(format!("d2:ip{}:{}7:peer id20:AAAAAAAAAAAAAAAAAA{:02}4:porti6881ee", ip.len(), ip, k % 100).as_bytes());
+            }
+            body.extend_from_slice(b"ee");
+            let resp = TrackerResp::from_bencode(&body).expect("reply must parse");
+            let tx = s.verif_tracker_tx();
+            // the tracker task, as TrackerClient::run: report each failure, wait, retry; report the reply, end
+            let job = tokio::spawn(async move {
+                for _ in 0..n {
+                    if tx.send(TrackerCmd::Fail("x".to_string())).await.is_err() {
+                        return;
+                    }
+                    tokio::time::sleep(std::time::Duration::from_millis(1000)).await;
+                }
+                let _ = tx.send(TrackerCmd::TrackerResp(resp)).await;
+            });
+            s.verif_set_tracker_job(job);
+            let mut out = vec![];
+            // the manager's event loop, as far as the tracker channel goes: one command at a time; a manager that
+            // does not come back within half a (virtual) second while the tracker keeps failing is blocked
+            // command k (0-based) is sent at k seconds; a manager that is not blocked has handled it right then
+            let t0 = tokio::time::Instant::now();
+            for k in 0..(n + 1) {
+                match tokio::time::timeout(std::time::Duration::from_millis(3000), s.verif_pump_tracker()).await {
+                    Ok(true) => {
+                        let late = t0.elapsed().as_millis() as i64 - 1000 * k as i64;
+                        out.push(if late.abs() < 100 { "OK" } else { "BLOCKED" });
+                        if late.abs() >= 100 {
+                            break;
+                        }
+                    }
+                    Ok(false) => out.push("CLOSED"),
+                    Err(_) => {
+                        out.push("BLOCKED");
+                        break;
+                    }
+                }
+            }
+            let mut contacted: Vec<usize> = s
+                .verif_peer_addrs()
+                .iter()
+                .filter(|a| a.starts_with("10.0.0."))
+                .map(|a| a.split(':').next().unwrap().rsplit('.').next().unwrap().parse().unwrap())
+                .collect();
+            contacted.sort();
+            let cands: Vec<String> = s
+                .verif_candidates()
+                .iter()
+                .map(|(a, _)| a.split(':').next().unwrap().rsplit('.').next().unwrap().to_string())
+                .collect();
+            format!(
+                "{} | {} | {}",
+                out.join(","),
+                if contacted.is_empty() { "-".to_string() } else { contacted.iter().map(|x| x.to_string()).collect::<Vec<_>>().join(",") },
+                if cands.is_empty() { "-".to_string() } else { cands.join(",") }
+            )
+        })
+    });
+    r.unwrap_or("PANIC".to_string())
 }
